@@ -16,12 +16,16 @@ fn all_selsets<'a>(ss: &'a q::SelectionSet, out: &mut Vec<&'a q::SelectionSet>) 
     }
 }
 
-pub fn collect_case(si: &gen::SchemaInfo, text: &str, out: &mut Out) {
+pub fn collect_case(si: &gen::SchemaInfo, text: &str, out: &mut Out) { collect_case_sets(si, text, true, out) }
+
+/// `all`: every selection set of the document; otherwise only the selection sets of fragment-free depth 0 of the operations
+pub fn collect_case_sets(si: &gen::SchemaInfo, text: &str, all: bool, out: &mut Out) {
     use graphql_tools::ast::OperationDefinitionExtension;
     let doc = match gen::parse_doc(text) { Some(d) => d, None => return };
     let mut sets = vec![];
     for d in &doc.definitions {
-        match d { q::Definition::Operation(o) => all_selsets(o.selection_set(), &mut sets), q::Definition::Fragment(f) => all_selsets(&f.selection_set, &mut sets) }
+        match d { q::Definition::Operation(o) => if all { all_selsets(o.selection_set(), &mut sets) } else { sets.push(o.selection_set()) },
+                  q::Definition::Fragment(f) => if all { all_selsets(&f.selection_set, &mut sets) } }
     }
     let objects: Vec<&s::TypeDefinition> = si.types().into_iter().filter(|t| matches!(t, s::TypeDefinition::Object(_))).collect();
     let r = std::panic::catch_unwind(std::panic::AssertUnwindSafe(|| {
@@ -37,7 +41,7 @@ pub fn collect_case(si: &gen::SchemaInfo, text: &str, out: &mut Out) {
         }
         res
     }));
-    out.push(json!({"op": "collect", "src": text, "doc": enc::document(&doc),
+    out.push(json!({"op": "collect", "src": text, "doc": enc::document(&doc), "sets": if all { "all" } else { "operations" },
         "parents": objects.iter().map(|t| { use graphql_tools::ast::TypeDefinitionExtension; json!(id(t.name())) }).collect::<Vec<_>>(),
         "impl": match r { Ok(v) => json!({"outcome": "ok", "results": v}), Err(_) => json!({"outcome": "panic"}) }}));
 }
